@@ -169,57 +169,62 @@ CO_ERR CONmtHbConsActivate(CO_HBCONS *hbc, uint16_t time, uint8_t nodeid)
     CO_NMT     *nmt;
     CO_HBCONS  *act;
     CO_HBCONS  *prev;
+    CO_HBCONS  *hbc_prev = 0;
     CO_HBCONS  *found = 0;
+    uint8_t     linked = 0;
 
     nmt = &(hbc->Node->Nmt);
+
+    /* search consumer for given node-ID and the given consumer itself
+     * within the list of active heartbeat consumers
+     */
     prev = 0;
     act  = nmt->HbCons;
     while (act != 0) {
-        if (act->NodeId == nodeid) {
+        if ((act->NodeId == nodeid) && (found == 0)) {
             found = act;
-            break;
+        }
+        if (act == hbc) {
+            linked   = 1;
+            hbc_prev = prev;
         }
         prev = act;
         act  = act->Next;
     }
 
-    if (found != 0) {
-        if (time > 0) {
-            result = CO_ERR_OBJ_INCOMPATIBLE;
-        } else {
-            if (hbc->Tmr >= 0) {
-                err = COTmrDelete(&nmt->Node->Tmr, hbc->Tmr);
-                if (err < 0) {
-                    result = CO_ERR_TMR_DELETE;
-                }
-            }
-            hbc->Time   = time;
-            hbc->NodeId = nodeid;
-            hbc->Tmr    = -1;
-            hbc->Event  = 0;
-            hbc->State  = CO_INVALID;
-            hbc->Node   = nmt->Node;
-            if (prev == 0) {
-                nmt->HbCons = hbc->Next;
-            } else {
-                prev->Next  = hbc->Next;
-            }
-            hbc->Next   = 0;
-        }
-    } else {
-        hbc->Time   = time;
-        hbc->NodeId = nodeid;
-        hbc->Tmr    = -1;
-        hbc->Event  = 0;
-        hbc->State  = CO_INVALID;
-        hbc->Node   = nmt->Node;
+    /* a node is monitored by one consumer only; nothing is changed */
+    if ((found != 0) && (time > 0)) {
+        return (CO_ERR_OBJ_INCOMPATIBLE);
+    }
 
-        if (time > 0) {
-            hbc->Next   = nmt->HbCons;
-            nmt->HbCons = hbc;
-        } else {
-            hbc->Next   = 0;
+    /* stop monitoring of given consumer, when it is active */
+    if (linked != 0) {
+        if (hbc->Tmr >= 0) {
+            err = COTmrDelete(&nmt->Node->Tmr, hbc->Tmr);
+            if (err < 0) {
+                result = CO_ERR_TMR_DELETE;
+            }
         }
+        if (hbc_prev == 0) {
+            nmt->HbCons = hbc->Next;
+        } else {
+            hbc_prev->Next = hbc->Next;
+        }
+    }
+
+    hbc->Time   = time;
+    hbc->NodeId = nodeid;
+    hbc->Tmr    = -1;
+    hbc->Event  = 0;
+    hbc->State  = CO_INVALID;
+    hbc->Node   = nmt->Node;
+
+    /* (re-)start monitoring with the first received heartbeat */
+    if (time > 0) {
+        hbc->Next   = nmt->HbCons;
+        nmt->HbCons = hbc;
+    } else {
+        hbc->Next   = 0;
     }
 
     return (result);
